@@ -125,6 +125,7 @@ type interpreter struct {
 	MergeFails map[string]int
 	pdom  map[*ssa.Function]*pdomInfo
 	onces map[*value]bool
+	syncMaps map[*value]*omap
 	loopHdr map[*ssa.BasicBlock]bool
 }
 
